@@ -13,7 +13,7 @@
 (* Routes (which copy of a formula the implementation uses) are action      *)
 (* parameters: they do not change the abstract state, but each one is a     *)
 (* distinct transition that the conformance harness replays.                *)
-EXTENDS Grids, TLC, Json, IOUtils, SequencesExt
+EXTENDS Grids, Dcm2Quat, TLC, Json, IOUtils, SequencesExt
 
 CONSTANTS Gen,        \* operands offered to the product actions
           Start,      \* initial register contents
@@ -31,6 +31,8 @@ AllConjRoutes == {"conjugate", "conj", "q_conj", "array_conjugate", "inverse"}
 (* which routes a configuration distinguishes: all of them when behaviours are   *)
 (* generated for replay, one when only the laws are model-checked                *)
 CONSTANTS MulRoutes, DcmRoutes, RotRoutes, ConjRoutes
+CONSTANTS QuatMethods      \* matrix -> quaternion methods offered to ToQuat (C02)
+Dispatchers == {"DCM.to_quaternion", "Quaternion(dcm=)", "QuaternionArray(DCM=)", "function"}
 
 (* reduce a matrix register to lowest terms so that the state space closes *)
 RedMat(num, den) ==
@@ -59,7 +61,24 @@ Negate             == /\ q' = NegQ(q)
 Convert(route)     == /\ UNCHANGED <<q, R>> /\ depth' = depth + 1
 Rotate(route, v)   == /\ UNCHANGED <<q, R>> /\ depth' = depth + 1
 
-Next == \/ \E r \in MulRoutes, v \in Gen : MulRight(r, v) \/ MulLeft(r, v)
+(* C02: recover the quaternion register from the MATRIX register (never from q).  The   *)
+(* closed-form methods are only required below a half-turn (w # 0).                      *)
+InDomain(method) == method \in {"shepperd", "itzhack1", "itzhack2", "itzhack3"} \/ q[1] # 0
+QuatOut(method) ==
+    CASE method = "shepperd"   -> Shepperd(R[1], R[2])
+      [] method = "chiaverini" -> Chiaverini(R[1], R[2])
+      [] method = "sarabandi"  -> Sarabandi(R[1], R[2])
+      [] method = "hughes"     -> Hughes(R[1], R[2])
+      [] OTHER                 -> \* Bar-Itzhack: a unit eigenvector for eigenvalue 1, either sign
+           { o \in {q, NegQ(q)} : IF method = "itzhack1" THEN IsEigen1(K2(R[1]), 2*R[2], o)
+                                                         ELSE IsEigen1(K3(R[1]), 3*R[2], o) }
+ToQuat(method, disp) == /\ InDomain(method)
+                        /\ q' \in { PrimQ(o) : o \in QuatOut(method) }
+                        /\ UNCHANGED R
+                        /\ depth' = depth + 1
+
+Next == \/ \E m \in QuatMethods, d \in Dispatchers : ToQuat(m, d)
+        \/ \E r \in MulRoutes, v \in Gen : MulRight(r, v) \/ MulLeft(r, v)
         \/ \E r \in ConjRoutes : Conjugate(r)
         \/ Negate
         \/ \E r \in DcmRoutes : Convert(r)
@@ -80,6 +99,13 @@ ProperRot  == /\ MatMul(R[1], Transpose(R[1])) = MatScale(R[2]*R[2], Ident3)
 RotateLaw  == \A v \in VecSet :
                  /\ Scale3(R[2], RotVec(q, v)) = Scale3(Norm2(q), MatVec(R[1], v))
                  /\ MatVec(Transpose(R[1]), MatVec(R[1], v)) = Scale3(R[2]*R[2], v)
+(* C02 at the model level: inside its domain every method has an output, every output is  *)
+(* a non-zero real multiple of the register, the two arms of Sarabandi and the magnitude /  *)
+(* sign recovery of Chiaverini are consistent, and the register is the eigenvector of K2/K3 *)
+MethodSound == \A m \in Methods : InDomain(m) =>
+                   /\ QuatOut(m) # {}
+                   /\ \A o \in QuatOut(m) : ~IsZeroQ(o) /\ Collinear4(o, q)
+ClosedFormIdentities == q[1] # 0 => MagnitudeIdentity(R[1], R[2]) /\ SarArmIdentity(R[1], R[2])
 (* the point laws at the current register, for every operand *)
 PointLaws  == /\ LawOrthogonal(q) /\ LawDet(q) /\ LawNeg(q) /\ LawConj(q) /\ LawInverse(q)
               /\ \A v \in Gen : LawHom(q, v) /\ LawHom(v, q) /\ LawNormMul(q, v)
